@@ -1310,7 +1310,7 @@ func main() {
 		return
 	}
 	// n = number of wlog-level cases; DB cases: quick 1 (sampled offsets), thorough 3 (every offset).
-	ndb, stride := 1, 9
+	ndb, stride := 1, 12
 	if c.Tier == "thorough" {
 		ndb, stride = 3, 1
 	}
